@@ -695,13 +695,116 @@ Section C06.
       rewrite forallb_forall in G. auto.
   Qed.
 
+  (* ---- the run-time exemplar check (761a6c7) is the specification's "same shape" on data values ---- *)
+  Lemma forallb_map' {A B} (g : A -> B) (f : B -> bool) l : forallb f (map g l) = forallb (fun a => f (g a)) l.
+  Proof. induction l; simpl; auto. now rewrite IHl. Qed.
+  Lemma existsb_map' {A B} (g : A -> B) (f : B -> bool) l : existsb f (map g l) = existsb (fun a => f (g a)) l.
+  Proof. induction l; simpl; auto. now rewrite IHl. Qed.
+
+  Notation rvf := (fun '(k, x) => (k, rv x)).
+
+  Lemma re_get_none k (l : list (bytes * rval fo)) :
+    existsb (bytes_eqb k) (map fst l) = false -> re_get fo k l = None.
+  Proof.
+    induction l as [|[k' y] l IH]; simpl; auto. intros H. apply orb_false_iff in H. destruct H as [H1 H2].
+    rewrite H1. auto.
+  Qed.
+
+  Lemma re_get_NoDup (l : list (bytes * rval fo)) k y :
+    NoDup (map fst l) -> In (k, y) l -> re_get fo k l = Some y.
+  Proof.
+    induction l as [|[k' y'] l IH]; simpl; intros N I; [contradiction|].
+    inversion N; subst. destruct I as [I|I].
+    - inversion I; subst. now rewrite bytes_eqb_refl.
+    - destruct (bytes_eqb k k') eqn:E; auto.
+      apply bytes_eqb_spec in E. subst k'. exfalso. apply H1. change k with (fst (k, y)). now apply in_map.
+  Qed.
+
+  Lemma nodup_names_NoDup' l : nodup_names l = true -> NoDup l.
+  Proof.
+    induction l as [|k l IH]; simpl; intros H; constructor; apply andb_true_iff in H; destruct H as [H1 H2]; auto.
+    intros I. apply negb_true_iff in H1.
+    assert (existsb (bytes_eqb k) l = true) by (apply existsb_exists; exists k; split; auto; apply bytes_eqb_refl).
+    congruence.
+  Qed.
+
+  (* the LAST binding of a name in the VM tuple is the field of the value (names are distinct) *)
+  Lemma re_get_rev_map (fv : list (bytes * value)) k :
+    nodup_names (names fv) = true ->
+    re_get fo k (rev (map rvf fv)) = option_map rv (lookup fo k fv).
+  Proof.
+    intros N. destruct (lookup fo k fv) as [y|] eqn:L; simpl.
+    - apply re_get_NoDup.
+      + rewrite map_rev. apply NoDup_rev. rewrite map_map.
+        erewrite map_ext; [apply nodup_names_NoDup', N|]. intros [a c]; reflexivity.
+      + apply in_rev. rewrite rev_involutive. apply in_map_iff. exists (k, y). split; auto. now apply lookup_in.
+    - apply re_get_none. rewrite map_rev.
+      destruct (existsb (bytes_eqb k) (rev (map fst (map rvf fv)))) eqn:E; auto.
+      apply existsb_exists in E. destruct E as (k' & I & E). apply bytes_eqb_spec in E. subst k'.
+      apply in_rev in I. rewrite map_map in I. apply in_map_iff in I. destruct I as ([k2 y] & E & I).
+      simpl in E. subst k2.
+      pose proof (existsb_names_lookup fo k fv) as X. rewrite L in X.
+      assert (existsb (bytes_eqb k) (names fv) = true).
+      { apply existsb_exists. exists k. split; [|apply bytes_eqb_refl]. change k with (fst (k, y)). now apply in_map. }
+      congruence.
+  Qed.
+
+  Theorem runtime_exemplar_conforms : forall ex v,
+    lit ex = true -> lit v = true -> rv_conforms fo (rv ex) (rv v) = same ex v.
+  Proof.
+    induction ex as [| | | | |le IH|fe IH| |] using value_ind2; intros v Le Lv;
+      try discriminate Le; destruct v as [| | | | |lv|fv| |]; try discriminate Lv; try reflexivity.
+    - (* lists *)
+      change (rv (VList le)) with (RList (map rv le)). change (rv (VList lv)) with (RList (map rv lv)).
+      change (same (VList le) (VList lv))
+        with (forallb (fun x => existsb (fun y => same x y) lv) le
+              || forallb (fun y => existsb (fun x => same x y) le) lv).
+      simpl rv_conforms. rewrite !forallb_map'.
+      rewrite Forall_forall in IH. simpl in Le, Lv. rewrite forallb_forall in Le, Lv.
+      f_equal.
+      + apply forallb_ext_in. intros x Ix. rewrite existsb_map'. apply existsb_ext_in. intros y Iy. apply IH; auto.
+      + apply forallb_ext_in. intros y Iy. rewrite existsb_map'. apply existsb_ext_in. intros x Ix. apply IH; auto.
+    - (* tuples *)
+      change (rv (VTuple fe)) with (RTuple (map rvf fe)). change (rv (VTuple fv)) with (RTuple (map rvf fv)).
+      change (same (VTuple fe) (VTuple fv))
+        with ((subset_names (names fe) (names fv) || subset_names (names fv) (names fe))
+              && forallb (fun '(k, x) => match lookup fo k fv with
+                                         | Some y => same x y | None => true end) fe).
+      simpl rv_conforms. rewrite !forallb_map'.
+      pose proof (lit_tuple_nodup fo fe Le) as Ne. pose proof (lit_tuple_nodup fo fv Lv) as Nv.
+      f_equal; [f_equal|].
+      + unfold subset_names. change (names fe) with (map fst fe). rewrite forallb_map'. apply forallb_ext_in. intros [k x] _.
+        simpl fst. rewrite (re_get_rev_map fv k Nv). rewrite existsb_names_lookup. destruct (lookup fo k fv); reflexivity.
+      + unfold subset_names. change (names fv) with (map fst fv). rewrite forallb_map'. apply forallb_ext_in. intros [k y] _.
+        simpl fst. rewrite (re_get_rev_map fe k Ne). rewrite existsb_names_lookup. destruct (lookup fo k fe); reflexivity.
+      + rewrite Forall_forall in IH. apply forallb_ext_in. intros [k x] I.
+        rewrite (re_get_rev_map fv k Nv). destruct (lookup fo k fv) as [y|] eqn:L; simpl; auto.
+        apply (IH (k, x) I).
+        * apply (lit_tuple_in fo fe k x Le I).
+        * apply (lit_tuple_in fo fv k y Lv). now apply lookup_in.
+  Qed.
+
+  (* data values: NULL, booleans, numbers, strings, lists and tuples (distinct field names) of such -
+     every value the evaluator can bind except functions and modules *)
+  Definition data_value (v : value) : bool := literal_value fo v.
+
+  (* what 761a6c7 buys: the run-time check alone decides conformance to an exemplar *)
+  Theorem runtime_exemplar_exact : forall ex v,
+    literal_value fo ex = true -> data_value v = true ->
+    runtime_ok fo (VExemplar ex) v = same_shape fo true ex v.
+  Proof. intros ex v Le Lv. apply runtime_exemplar_conforms; auto. Qed.
+
+  Lemma check_constraint_plain (ex : value) x : check_constraint fo (rv ex) x = rv_conforms fo (rv ex) x.
+  Proof. destruct ex; reflexivity. Qed.
+
   (* ---- C06, the heart: a constraint admits exactly the conforming values ---- *)
   Theorem let_constraint_exact_lit : forall c v,
     constraint_grammar fo c = true -> literal_value fo v = true ->
     build_accepts fo c v = conforms fo c v.
   Proof.
     intros [ex|arms] v G Lv; unfold build_accepts.
-    - simpl runtime_ok. rewrite andb_true_r. apply static_ok_exemplar; auto.
+    - simpl in G. rewrite (runtime_exemplar_exact ex v G Lv). rewrite (static_ok_exemplar ex v G Lv).
+      unfold conforms, conforms_gen. apply andb_diag.
     - assert (Hne : arms <> []).
       { simpl in G. apply andb_true_iff in G. destruct G as [_ G]. destruct arms; [discriminate|discriminate]. }
       assert (Ga : forallb (arm_grammar fo) arms = true).
@@ -897,8 +1000,6 @@ Section Prog.
       rewrite (build_arm_grammar re a ra Ga Ea). simpl. rewrite (IH rs' G eq_refl). reflexivity.
   Qed.
 
-  Lemma check_plain_value (ex : value) x : check_constraint fo (rv ex) x = true.
-  Proof. destruct ex; reflexivity. Qed.
 
   (* the run-time check, for the constraint value [k] that the constraint expression evaluates to *)
   Lemma eval_cexpr_grammar re c v :
@@ -906,7 +1007,7 @@ Section Prog.
     exists k, eval_cexpr fo re (cexpr_of fo c) = Ok k /\ check_constraint fo k (rv v) = runtime_ok fo c v.
   Proof.
     destruct c as [ex|arms]; simpl; intros G.
-    - exists (rv ex). split; [now apply lit_eval_lit|apply check_plain_value].
+    - exists (rv ex). split; [now apply lit_eval_lit|exact (check_constraint_plain fo ex (rv v))].
     - apply andb_true_iff in G. destruct G as [G _].
       destruct (rarms_of_spec fo arms G) as (rs & Es & _).
       rewrite (build_arms_grammar re arms rs G Es). simpl. exists (RCon rs). split; auto. now rewrite Es.
@@ -929,7 +1030,7 @@ Section Prog.
     destruct (runtime_ok fo c v); reflexivity.
   Qed.
 
-  Local Opaque bytes_eqb is_reserved xname.
+  Local Opaque bytes_eqb is_reserved xname rv_conforms.
 
   (* ---- `constraint n = c; let x :: n = v;` ---- *)
   Definition name_ok (n : bytes) : bool := negb (is_reserved n) && negb (bytes_eqb xname n).
@@ -1010,7 +1111,91 @@ Section Prog.
     destruct (is_err r); simpl; auto.
     rewrite (lit_eval_lit ex Le). simpl. rewrite Hr. simpl.
     rewrite (lit_eval_lit v Lv). simpl. rewrite bytes_eqb_refl. simpl.
-    rewrite check_plain_value. simpl. rewrite xname_not_reserved. simpl. rewrite Hx. reflexivity.
+    rewrite (check_constraint_plain fo ex).
+    change (runtime_ok fo (VExemplar ex) v) with (rv_conforms fo (rv ex) (rv v)).
+    destruct (rv_conforms fo (rv ex) (rv v)); simpl; auto.
+    rewrite xname_not_reserved. simpl. rewrite Hx. reflexivity.
+  Qed.
+
+  (* ---- what the run-time exemplar check (761a6c7) buys at the statement level ---- *)
+  Lemma run_stmt_let_gen x c e re : run_stmt fo (CLet x c e) re = run_let_gen fo (lit_eval fo) x c e re.
+  Proof. reflexivity. Qed.
+
+  (* whatever evaluates the bound expression: `let x :: ex = e` binds x only to a value that passes
+     conforms_to_exemplar against ex *)
+  Theorem let_exemplar_binds_conforming : forall (ev : renv fo -> expr -> res (rval fo)) x ex e re re',
+    literal_value fo ex = true ->
+    run_let_gen fo ev x (Some (CPlain (lex ex))) e re = Ok re' ->
+    exists w, ev re e = Ok w /\ re' = (x, w) :: re /\ rv_conforms fo (rv ex) w = true.
+  Proof.
+    intros ev x ex e re re' Le H. unfold run_let_gen in H.
+    destruct (ev re e) as [w| | |] eqn:E; simpl in H; try discriminate.
+    simpl eval_cexpr in H. rewrite (lit_eval_lit ex Le) in H. simpl in H.
+    rewrite (check_constraint_plain fo ex) in H.
+    destruct (rv_conforms fo (rv ex) w) eqn:C; simpl in H; try discriminate.
+    destruct (is_reserved x); try discriminate. destruct (re_get fo x re); try discriminate.
+    inversion H; subst. eauto.
+  Qed.
+
+  (* ... and for a data value that is exactly the specification's "same shape" *)
+  Theorem let_exemplar_binds_same_shape : forall (ev : renv fo -> expr -> res (rval fo)) x ex e re re' v,
+    literal_value fo ex = true -> data_value fo v = true ->
+    ev re e = Ok (rv v) ->
+    run_let_gen fo ev x (Some (CPlain (lex ex))) e re = Ok re' ->
+    same_shape fo true ex v = true /\ re' = (x, rv v) :: re.
+  Proof.
+    intros ev x ex e re re' v Le Dv E H.
+    destruct (let_exemplar_binds_conforming ev x ex e re re' Le H) as (w & Ew & R & C).
+    rewrite E in Ew. inversion Ew; subst w. split; auto.
+    now rewrite <- (runtime_exemplar_conforms fo ex v Le Dv).
+  Qed.
+
+  (* conversely a conforming data value is bound (fresh, non-reserved name) *)
+  Theorem let_exemplar_accepts_same_shape : forall (ev : renv fo -> expr -> res (rval fo)) x ex e re v,
+    literal_value fo ex = true -> data_value fo v = true ->
+    ev re e = Ok (rv v) -> is_reserved x = false -> re_get fo x re = None ->
+    same_shape fo true ex v = true ->
+    run_let_gen fo ev x (Some (CPlain (lex ex))) e re = Ok ((x, rv v) :: re).
+  Proof.
+    intros ev x ex e re v Le Dv E Hr Hx S. unfold run_let_gen. rewrite E. simpl.
+    rewrite (lit_eval_lit ex Le). simpl. rewrite (check_constraint_plain fo ex).
+    rewrite (runtime_exemplar_conforms fo ex v Le Dv), S. simpl. now rewrite Hr, Hx.
+  Qed.
+
+  (* on run_stmt: the bound expression may be any name of the environment, whatever was bound to it *)
+  Corollary run_stmt_exemplar_name : forall x ex y re re' v,
+    literal_value fo ex = true -> data_value fo v = true -> re_get fo y re = Some (rv v) ->
+    run_stmt fo (CLet x (Some (CPlain (lex ex))) (ESym y)) re = Ok re' ->
+    same_shape fo true ex v = true.
+  Proof.
+    intros x ex y re re' v Le Dv G H. rewrite run_stmt_let_gen in H.
+    apply (let_exemplar_binds_same_shape (lit_eval fo) x ex (ESym y) re re' v Le Dv); auto.
+    simpl. now rewrite G.
+  Qed.
+
+  Lemma run_stmts_app ss1 ss2 re :
+    run_stmts fo (ss1 ++ ss2) re = (do re1 <- run_stmts fo ss1 re; run_stmts fo ss2 re1).
+  Proof.
+    revert re. induction ss1 as [|s ss1 IH]; simpl; intros re; auto.
+    destruct (run_stmt fo s re); simpl; auto.
+  Qed.
+
+  (* on build_prog: a file that ends with `let x :: ex = e;` and builds has bound x to a conforming value *)
+  Theorem build_prog_exemplar_last : forall ss x ex e re',
+    literal_value fo ex = true ->
+    build_prog fo (ss ++ [CLet x (Some (CPlain (lex ex))) e]) = Ok re' ->
+    exists w re1, re' = (x, w) :: re1 /\ rv_conforms fo (rv ex) w = true.
+  Proof.
+    intros ss x ex e re' Le H. unfold build_prog in H.
+    destruct (check_stmts _ []); try discriminate.
+    rewrite run_stmts_app in H. destruct (run_stmts fo ss []) as [re1| | |]; try discriminate H.
+    change (run_stmts fo [CLet x (Some (CPlain (lex ex))) e] re1 = Ok re') in H.
+    change (run_stmts fo [CLet x (Some (CPlain (lex ex))) e] re1)
+      with (do r <- run_stmt fo (CLet x (Some (CPlain (lex ex))) e) re1; Ok r) in H.
+    rewrite run_stmt_let_gen in H.
+    destruct (run_let_gen fo (lit_eval fo) x (Some (CPlain (lex ex))) e re1) as [re2| | |] eqn:R; try discriminate H.
+    inversion H; subst.
+    destruct (let_exemplar_binds_conforming (lit_eval fo) x ex e re1 re' Le R) as (w & _ & E & C). eauto.
   Qed.
 End Prog.
 
